@@ -340,7 +340,8 @@ fn systematic_histories() -> Vec<History> {
     ];
     let mut out = vec![];
     for (name, define, modify, unset) in classes {
-        for ends in [["normal", "normal", "normal"], ["exit:3", "normal", "fail"], ["normal", "exit:0", "normal"]] {
+        // (exit codes above 128 are exit codes like any other: what the test case changed is carried)
+        for ends in [["normal", "normal", "normal"], ["exit:3", "normal", "fail"], ["normal", "exit:0", "normal"], ["exit:255", "exit:143", "exit:129"]] {
             let mk = |code: &str, end: &str, tag: &str| Snippet {
                 env: BTreeMap::new(),
                 code: code.to_string(),
@@ -410,6 +411,20 @@ fn systematic_histories() -> Vec<History> {
     });
     long.truncate(12);
     out.push(History { real_history: true, id: "sys-long-12b".into(), snippets: long });
+    // a detached test case (or a job left behind) tidies up "$TMPDIR"/* while scrut waits before
+    // the next test case: the state at rest between two test cases must be out of its reach
+    for (i, clean) in ["rm -rf \"$VS_TMP\"/*", "find \"$VS_TMP\" -mindepth 1 -maxdepth 1 -name '[!.]*' -exec rm -rf {} +"].iter().enumerate() {
+        out.push(History {
+            real_history: true,
+            id: format!("sys-cleaner-at-rest-{}", i),
+            snippets: vec![
+                plain("export VE1=before; VS1='kept value'; VA1=(a 'b c'); f1() { echo one; }; alias a1='echo al'; shopt -s nullglob; cd 'd 1'", "export-define"),
+                Snippet { env: BTreeMap::new(), code: format!("touch \"$VS_TMP/visible-file\"; mkdir -p \"$VS_TMP/visible-dir\"; {}", clean), end: "detached".into(), tag: "cleaner-detached".into() },
+                plain("VE1=\"$VE1 after\"", "wait-1200"),
+                plain("true", "use"),
+            ],
+        });
+    }
     // (the third: the temporary directory is GONE when the shell ends, and a variable changed with it)
     for (i, wipe) in ["find \"$VS_TMP\" -mindepth 1 -delete 2>/dev/null; true", "rm -rf \"$VS_TMP\"; mkdir -p \"$VS_TMP\"", "VS1=changed-while-gone; rm -rf \"$VS_TMP\""].iter().enumerate() {
         out.push(History {
@@ -468,9 +483,19 @@ fn layout() -> std::io::Result<Layout> {
 /// `spaced`: the temporary directory (in which scrut keeps the state file) has a name with a
 /// blank and a quote in it
 fn layout_with(spaced: bool) -> std::io::Result<Layout> {
+    layout_styled(if spaced { 1 } else { 0 })
+}
+
+/// style 2: a name that every shell would expand differently (`$$`, `$RANDOM`) if it were
+/// ever expanded
+fn layout_styled(style: u32) -> std::io::Result<Layout> {
     let root = tempfile::Builder::new().prefix("vr.").tempdir_in(scratch_root())?;
     let work = root.path().join("base");
-    let tmp = root.path().join(if spaced { "t m'p" } else { "tmp" });
+    let tmp = root.path().join(match style {
+        1 => "t m'p",
+        2 => "job.$$.$RANDOM",
+        _ => "tmp",
+    });
     std::fs::create_dir_all(work.join("d 1"))?;
     std::fs::create_dir_all(work.join("d2/inner"))?;
     std::fs::create_dir_all(work.join("d2/in ner"))?;
@@ -492,8 +517,8 @@ type Trace = Vec<(String, String)>;
 
 fn run_through_scrut(h: &History) -> Result<Trace, String> {
     // (a function of the history, so that a replay does the same)
-    let spaced = h.id.bytes().map(|b| b as u32).sum::<u32>() % 2 == 1;
-    let l = layout_with(spaced).map_err(|e| e.to_string())?;
+    let style = h.id.bytes().map(|b| b as u32).sum::<u32>() % 3;
+    let l = layout_styled(style).map_err(|e| e.to_string())?;
     let mut env: BTreeMap<String, String> = BTreeMap::new();
     env.insert("VS_BASE".into(), l.work.to_string_lossy().into_owned());
     env.insert("VS_TMP".into(), l.tmp.to_string_lossy().into_owned());
@@ -512,6 +537,11 @@ fn run_through_scrut(h: &History) -> Result<Trace, String> {
             }
             if s.end == "detached" {
                 config.detached = Some(true);
+            }
+            // (a snippet tagged `wait-<ms>` waits that long before it starts - the time in which
+            // something else may touch what lies at rest between two test cases)
+            if let Some(ms) = s.tag.strip_prefix("wait-").and_then(|m| m.parse::<u64>().ok()) {
+                config.wait = Some(scrut::config::TestCaseWait { timeout: std::time::Duration::from_millis(ms), path: None });
             }
             TestCase {
                 title: format!("s{}", i),
